@@ -411,3 +411,22 @@ func TestF18_NewFuncListDropsOptions(t *testing.T) {
 		t.Fatalf("got %v", res.Out(0))
 	}
 }
+
+// F20 (C19): AddEdge to or from a vertex that is not in the graph panicked (documented: does nothing), and
+// with only the target missing it had already stored the successor half of the edge.
+func TestF20_AddEdgeAbsentVertex(t *testing.T) {
+	var g graph.Graph
+	g.Add("a")
+	func() {
+		defer func() {
+			if p := recover(); p != nil {
+				t.Errorf("AddEdge to an absent vertex panicked: %v", p)
+			}
+		}()
+		g.AddEdge("a", "x")
+		g.AddEdgeWeighted("x", "a", 2)
+	}()
+	if out := g.OutEdges("a"); len(out) != 0 {
+		t.Fatalf("half of an edge to an absent vertex was stored: %v", out)
+	}
+}
